@@ -16,7 +16,7 @@ LEVEL = "translation_validation"
 PROPS_FILE = "C04.v"
 RUN_MODULE = "RunC04"
 TRANSLATOR_UNITS = []
-SHARD = 12
+SHARD = 40
 RULE = ("designs: Module-DSL programs over the C01 expression generator; per design 3-9 signals (width 0..6, signed/unsigned, "
         "random init, some reset_less), roles input / undriven / driven in 1-2 segments (whole, partial with undriven gaps, "
         "two owners in different modules or domains); module tree of depth <= 3 (1-5 modules), drivers placed in any module, "
@@ -63,7 +63,8 @@ def remap(t, idx):
 
 
 def has_signed_part(t, shapes):
-    """does the term contain a part-select whose operand is signed (candidate for the $shift finding)?"""
+    """does the term contain a part-select of a SIGNED operand whose window can reach above max(len(operand), width)?
+    (the only place where the two readings of $shift with A_SIGNED differ)"""
     k = t[0]
     if k in ("c", "s"):
         return False
@@ -74,7 +75,10 @@ def has_signed_part(t, shapes):
     if k == "sl":
         return has_signed_part(t[1], shapes)
     if k == "pt":
-        return G.pyshape(t[1], shapes)[1] or has_signed_part(t[1], shapes) or has_signed_part(t[2], shapes)
+        aw, asg = G.pyshape(t[1], shapes)
+        ow = G.pyshape(t[2], shapes)[0]
+        over = asg and ((1 << ow) - 1) * t[4] + t[3] > max(aw, t[3])
+        return over or has_signed_part(t[1], shapes) or has_signed_part(t[2], shapes)
     if k == "cat":
         return any(has_signed_part(p, shapes) for p in t[1])
     if k == "sw":
@@ -82,10 +86,24 @@ def has_signed_part(t, shapes):
     raise ValueError(k)
 
 
+def lhs_reads(t):
+    """expressions read inside an assignment target (part-select offsets)"""
+    k = t[0]
+    if k == "pt":
+        return [t[2]] + lhs_reads(t[1])
+    if k in ("sl",):
+        return lhs_reads(t[1])
+    if k == "o1":
+        return lhs_reads(t[2])
+    if k == "cat":
+        return [e for p in t[1] for e in lhs_reads(p)]
+    return []
+
+
 def stmts_have(stmts, pred):
     for s in stmts:
         if s[0] == "as":
-            if pred(s[1]) or pred(s[2]):
+            if pred(s[2]) or any(pred(e) for e in lhs_reads(s[1])):
                 return True
         elif s[0] == "if":
             for c, body in s[1]:
@@ -390,13 +408,31 @@ def _op_design(term, inshapes):
             "ins": list(range(len(inshapes))), "outs": [y], "rename": False, "mem": None, "stim": stim, "opd": True}
 
 
+_GEN_CACHE = {}
+
+
 def gen_cases(tier, seed):
+    key = (tier, seed)
+    if key not in _GEN_CACHE:
+        _GEN_CACHE[key] = _gen_cases(tier, seed)
+    return _GEN_CACHE[key]
+
+
+def _gen_cases(tier, seed):
     thorough = tier == "thorough"
     rng = random.Random(seed + 404)
     cases = []
     for d in op_designs(thorough):
         cases.append({"k": "op", "d": d})
-    n = 300 if not thorough else 5000
+    for d in f7_designs():
+        cases.append({"k": "f7", "d": d})
+    na = 0
+    while na < (6 if not thorough else 60):
+        d = DGen(rng, {"maxsig": 6, "maxw": 4, "maxtotal": 16, "maxsteps": 12, "async": 1.0, "mem": 0.0}).design()
+        if validate(d)[0]:
+            cases.append({"k": "rnd", "d": d})
+            na += 1
+    n = 300 + na if not thorough else 3000 + na
     tries = 0
     while sum(1 for c in cases if c["k"] == "rnd") < n and tries < 4 * n:
         tries += 1
@@ -622,6 +658,10 @@ def coq_term(c):
     mods = R.parse(text)
     doc = R.coq_doc(mods)
     top = mods[0]
+    MOD_COUNT[0] += len(mods)
+    for m_ in mods:
+        for it in m_.items:
+            CELL_HIST["process" if isinstance(it, R.Process) else (it.kind if it.kind.startswith("$") else "submodule")] += 1
     obs = []
     for s, wh in zip(observed_signals(B), where):
         if wh is None:
@@ -665,6 +705,8 @@ def classify(c):
     if c["k"] == "op":
         t = d["mods"][0]["blocks"][0][1][0][2]
         return "op:" + (t[1] if t[0] in ("o1", "o2") else t[0])
+    if c["k"] == "f7":
+        return "f7:witness"
     nm = len(d["mods"])
     dep = 0
     for md in d["mods"]:
@@ -693,15 +735,79 @@ def nontrivial(c, obs):
     return any(r != rows[0] for r in rows)
 
 
+def _rows(c, l):
+    n = len(c["d"]["stim"]) + 1
+    if not l or len(l) % n:
+        return None
+    k = len(l) // n
+    return [l[i * k:(i + 1) * k] for i in range(n)]
+
+
 def known_finding(c, obs, model):
+    """F7: the first diverging row is a data step that raises the reset of an async-reset domain (no clock edge in
+    that step).  SHIFT: the design contains a part-select of a signed value that can reach above the operand
+    (emitted as $shift with A_SIGNED, whose published meaning is a logical shift)."""
     d = c["d"]
-    shapes = [[s["w"], s["sg"]] for s in d["sigs"]]
-    if any(x["rst"] == "async" for x in d["doms"]):
-        return F7_ID
+    ro, rm = _rows(c, obs), _rows(c, model)
+    if ro is None or rm is None or len(ro) != len(rm):
+        return None
+    first = next((j for j in range(len(ro)) if ro[j] != rm[j]), None)
+    if first is None:
+        return None
+    if first >= 1:
+        rst = [0] * len(d["doms"])
+        for j, (kind, sets) in enumerate(d["stim"], 1):
+            if kind != "data":
+                continue
+            for tgt, v in sets:
+                if tgt[0] == "rst":
+                    if j == first and d["doms"][tgt[1]]["rst"] == "async" and v == 1 and rst[tgt[1]] == 0:
+                        return F7_ID
+                    rst[tgt[1]] = v
+    shapes = [[x["w"], x["sg"]] for x in d["sigs"]]
     blocks = [st for md in d["mods"] for _, st in md["blocks"]]
-    if any(stmts_have(st, lambda t: has_signed_part(t, shapes)) for st in blocks):
+    pred = lambda t: has_signed_part(t, shapes)
+    if any(stmts_have(st, pred) for st in blocks):
+        return SHIFT_ID
+    mm = d.get("mem")
+    if mm and any(pred(e) for e in [mm["waddr"], mm["wdata"], mm["wen"]] + [x for r in mm["reads"] for x in (r["addr"], r["en"])]):
         return SHIFT_ID
     return None
+
+
+def f7_designs():
+    """the DESIGN.md witness and a variant: async-reset domain, reset-less counter, reset raised between clock edges"""
+    out = []
+    for rl in (True, False):
+        sigs = [{"w": 4, "sg": False, "init": 3, "rl": rl}, {"w": 4, "sg": False, "init": 5, "rl": False}]
+        stmts = [["as", ["s", 0], ["o2", "+", ["s", 0], ["c", 1, 1, False]]],
+                 ["as", ["s", 1], ["o2", "+", ["s", 1], ["c", 1, 1, False]]]]
+        stim = [["clk", [[0, 1]]], ["clk", [[0, 0]]], ["data", [[["rst", 0], 1]]], ["clk", [[0, 1]]], ["clk", [[0, 0]]],
+                ["data", [[["rst", 0], 0]]], ["clk", [[0, 1]]], ["clk", [[0, 0]]]]
+        out.append({"sigs": sigs, "doms": [{"name": "sync", "rst": "async"}],
+                    "mods": [{"parent": None, "name": "m0", "blocks": [["sync", stmts]]}],
+                    "ins": [], "outs": [0, 1], "rename": False, "mem": None, "stim": stim})
+    return out
+
+
+def extra(tier, seed, findings):
+    cases = gen_cases(tier, seed)
+    comparisons = 0
+    steps = 0
+    for c in cases:
+        d = c["d"]
+        nobs = len(d["sigs"]) + len(d["outs"]) + (2 * len(d["mem"]["reads"]) if d.get("mem") else 0)
+        comparisons += (len(d["stim"]) + 1) * nobs
+        steps += len(d["stim"])
+    cov = {"programs": len(cases), "disagreements_checked": comparisons, "samples": steps,
+           "rtlil_cell_histogram": dict(CELL_HIST), "rtlil_modules": MOD_COUNT[0],
+           "layer": "B = per-design translation validation (vm_compute of RtlilSem.run on the emitted text); "
+                    "A = the theorems of Props/C04.v"}
+    return [], cov
+
+
+CELL_HIST = collections.Counter()
+MOD_COUNT = [0]
 
 
 def explain(c):
